@@ -144,7 +144,7 @@ type targetDTO struct {
 	OutputChecks  []map[string]any  `json:"output_checks,omitempty"`
 	Tags          []string          `json:"tags,omitempty"`
 	Fingerprint   map[string]string `json:"fingerprint,omitempty"`
-	Platforms     []string          `json:"platforms,omitempty"`
+	Platforms     *[]string         `json:"platforms,omitempty"`
 	Timeout       string            `json:"timeout,omitempty"`
 }
 
@@ -154,20 +154,30 @@ type aliasDTO struct {
 }
 
 type packageDTO struct {
-	Targets []targetDTO `json:"targets"`
-	Aliases []aliasDTO  `json:"aliases,omitempty"`
+	Targets          []targetDTO `json:"targets"`
+	Aliases          []aliasDTO  `json:"aliases,omitempty"`
+	DefaultPlatforms []string    `json:"default_platforms,omitempty"`
 }
 
 func renderBuildFiles(u *Universe) map[string]string {
 	out := map[string]string{}
 	for _, p := range u.pkgsOf() {
 		var pk packageDTO
+		pk.DefaultPlatforms = u.PkgPlat[p]
 		for _, l := range u.Labels() {
 			s := u.Specs[l]
 			if s.Pkg != p {
 				continue
 			}
-			t := targetDTO{Name: s.Name, Dependencies: s.Deps, Inputs: s.Inputs, ExcludeInputs: s.Excludes, Tags: s.Tags, Platforms: s.Platforms}
+			t := targetDTO{Name: s.Name, Dependencies: s.Deps, Inputs: s.Inputs, ExcludeInputs: s.Excludes, Tags: s.Tags}
+			switch {
+			case s.PlatMode == "empty":
+				t.Platforms = &[]string{} // "platforms": [] overrides the package default
+			case s.PlatMode == "inherit":
+			case len(s.Platforms) > 0:
+				pl := s.Platforms
+				t.Platforms = &pl
+			}
 			if !s.NoCmd {
 				t.Command = fmt.Sprintf(": SIMCMD %s v%d", s.Label(), s.Ver)
 			}
@@ -392,12 +402,13 @@ func (w *wbuild) handler(inv *simexec.Invocation) (int, error) {
 		inv.Sleep(0)
 		w.mu.Lock()
 		val := u.Ext[key]
+		rcFail := u.Ext[key+"#rc"] == "fail" // the check prints what it prints, but exits non-zero
 		w.mu.Unlock()
 		if cmd.Stdout != nil {
 			cmd.Stdout.Write([]byte(val + "\n"))
 		}
 		ev.End = w.s.Steps()
-		if val == "" {
+		if val == "" || rcFail {
 			ev.Exit = 1
 		}
 		w.record(ev)
@@ -495,6 +506,7 @@ func (w *wbuild) handler(inv *simexec.Invocation) (int, error) {
 					want = "ok"
 				}
 				u.Ext[c.Key] = want
+				delete(u.Ext, c.Key+"#rc")
 			}
 			w.mu.Unlock()
 		}
